@@ -481,13 +481,9 @@ fn is_simple_location(l: &str) -> bool {
     (sch == "http" || sch == "https")
         && p.userinfo.is_none()
         && !h.is_empty()
-        && h.bytes().all(|b| b.is_ascii_lowercase() || b.is_ascii_digit() || b == b'.' || b == b'-')
-        && h.bytes().any(|b| b.is_ascii_lowercase())
-        && !h.starts_with('.')
-        && !h.ends_with('.')
-        && !h.contains("..")
+        // every label = letter followed by letters/digits: nothing IDNA or the IPv4 parser could object to
+        && h.split('.').all(|lab| !lab.is_empty() && lab.len() <= 30 && lab.as_bytes()[0].is_ascii_lowercase() && lab.bytes().all(|b| b.is_ascii_lowercase() || b.is_ascii_digit()))
         && !h.ends_with("localhost")
-        && h.split('.').last().map(|t| t.bytes().any(|b| b.is_ascii_lowercase())).unwrap_or(false)
         && p.port.as_ref().map(|x| !x.is_empty() && x.bytes().all(|b| b.is_ascii_digit()) && x.parse::<u32>().map(|v| v <= 65535).unwrap_or(false)).unwrap_or(true)
         && !l.contains('\\')
         && !l.contains(' ')
@@ -570,7 +566,8 @@ fn judge(c: &Case, e: &Exec) -> Verdict {
         }
         if n >= 1 && e.outcome.starts_with("err:") {
             if let Some(l) = c.hops.get(n - 1) {
-                if is_simple_location(l) {
+                // the hop is resolved against the last URI that was sent; only judge when both are plain
+                if is_simple_location(l) && is_simple_location(&e.records[n - 1]) {
                     let parts = split_uri(l);
                     let rv = ref_allowed(&pats, &parts);
                     if !rv.allowed && rv.undefined.is_none() {
@@ -759,6 +756,35 @@ fn real_stack_cases() -> Result<Vec<(String, Option<(String, String)>, serde_jso
         };
         out.push((format!("{m}|listed-origin|{o}|connections={}", c.hits.load(std::sync::atomic::Ordering::SeqCst)), None, json!({"case": "listed loopback origin", "outcome": o})));
     }
+    // (4) signing with a signer that names a TSA URL: the time-stamp request is an SDK HTTP request too.
+    //     The Context used for signing carries an allow-list that does NOT contain the TSA host.
+    {
+        let tsa = spawn_listener("HTTP/1.1 500 Internal Server Error\r\nContent-Length: 0\r\nConnection: close\r\n\r\n".to_string()).ok_or("cannot bind a loopback listener")?;
+        let settings = json!({"core": {"allowed_network_hosts": ["manifests.allowed.example"]}, "builder": {"thumbnail": {"enabled": false}}});
+        let ctx = Context::new().with_settings(settings.to_string().as_str()).map_err(|e| format!("settings: {e}"))?;
+        let signer = c2pa::create_signer::from_keys(&vmon::signers::cert_pem("ed25519"), &vmon::signers::key_pem("ed25519"), c2pa::SigningAlg::Ed25519, Some(format!("http://127.0.0.1:{}/tsa", tsa.port))).map_err(|e| format!("signer: {e}"))?;
+        let src = vmon::assets::tiny_png(true, &[]);
+        let r = report::catch_sdk(|| {
+            let mut b = c2pa::Builder::from_context(ctx).with_definition(json!({"title": "c26-tsa"}))?;
+            b.set_intent(c2pa::BuilderIntent::Edit);
+            let mut s = std::io::Cursor::new(src.clone());
+            let mut d = std::io::Cursor::new(Vec::new());
+            b.sign(signer.as_ref(), "png", &mut s, &mut d).map(|_| ())
+        });
+        let o = match r {
+            Err(p) => format!("panic:{p}"),
+            Ok(Ok(())) => "ok:signed".to_string(),
+            Ok(Err(e)) => format!("err:{}", report::err_kind(&e)),
+        };
+        let hits = tsa.hits.load(std::sync::atomic::Ordering::SeqCst);
+        let w = json!({"case": "Builder::sign in a Context whose core.allowed_network_hosts = [manifests.allowed.example], signer from create_signer::from_keys with tsa_url = http://127.0.0.1:<port>/tsa", "outcome": o, "tsa_listener_connections": hits});
+        let viol = if hits > 0 {
+            Some(("real-sync|signer-tsa-request|not-checked-against-context-allow-list".to_string(), format!("the TSA listener (host not on the Context's allow-list) received {hits} connection(s) during Builder::sign; outcome {o}")))
+        } else {
+            None
+        };
+        out.push((format!("real-sync|signer-tsa-request|{o}|tsa_connections={}", hits.min(2)), viol, w));
+    }
     Ok(out)
 }
 
@@ -842,7 +868,7 @@ fn main() {
             for (class, viol, w) in list {
                 run.eval();
                 run.nontrivial(class.clone());
-                run.sample("real-stack", 6, json!({"class": class, "detail": w}));
+                run.sample("real-stack", 8, json!({"class": class, "detail": w}));
                 if let Some((sig, what)) = viol {
                     run.violation(&sig, &what, w);
                 }
